@@ -29,6 +29,15 @@ def gen_episode(rng, long=False):
             g.ops.append("lb remove %s" % nm)
             if nm in g.names:
                 g.names.remove(nm)
+        elif k < 0.56 and g.names:
+            # a backend is replaced under its own name (remove + add, nothing in between): the old
+            # object is gone for good, new requests go to the new one
+            nm = rng.choice(g.names)
+            g.ops.append("lb remove %s" % nm)
+            g.names.remove(nm)
+            g.add(name=nm, w=rng.choice([1, 2, 7]))
+            for _ in range(rng.randint(1, 4)):
+                g.request(outcome="200")
         elif k < 0.62:
             g.set_strategy()
         elif k < 0.8:
